@@ -83,6 +83,20 @@ func c06Run(vm *ds.Context, src string) c06Out {
 	gb, _ := g.MarshalBinary()
 	expectSrc = vm.RandSrc
 	o := observeRun(vm, src, nil, false, false)
+	// every second program is followed by an evaluation through RunExpr on the same context (its dice are the context's too)
+	if len(src)%2 == 0 && !o.Panic {
+		func() {
+			defer func() { recover() }()
+			v, err := vm.RunExpr("3d20 + 2d6kh1 + [1,2,3,4,5,6].rand()", true)
+			if err == nil && v != nil {
+				o.Ret += " | RunExpr: " + canon(project(v, 0))
+			} else {
+				o.Ret += " | RunExpr: error"
+			}
+			sd, _ := vm.GetCurSeed()
+			o.Seed = fmt.Sprintf("%x", sd)
+		}()
+	}
 	out := c06Out{hostOut: o}
 	for _, rr := range rollLog {
 		if rr.M == 0 && !rr.O {
